@@ -124,6 +124,16 @@ func renderMySQL(c Case) myRendered {
 					op = "!="
 				}
 			}
+			if k.NS {
+				// the null-safe operator has no negated spelling
+				if k.Flip {
+					scol, val = val, scol
+				}
+				if k.Neg {
+					return "NOT (" + scol + " <=> " + val + ")"
+				}
+				return scol + " <=> " + val
+			}
 			if k.Flip {
 				return val + " " + op + " " + scol
 			}
@@ -207,6 +217,8 @@ type myEnv struct {
 	ualias string
 	params [][]byte
 	err    error
+	// tvisible: the columns of t the statement can name (nil: all) - those a derived table over t lists
+	tvisible map[string]bool
 }
 
 func (e *myEnv) fail(f string, a ...any) myVal {
@@ -224,7 +236,7 @@ func (e *myEnv) column(n *sqlparser.ColName) myVal {
 	qual := strings.ToLower(n.Qualifier.Name.String())
 	fromT := func() (myVal, bool) {
 		i, ok := tCols[name]
-		if !ok {
+		if !ok || (e.tvisible != nil && !e.tvisible[name]) {
 			return myVal{}, false
 		}
 		v := e.trow[i]
@@ -392,6 +404,12 @@ func (e *myEnv) cond(x sqlparser.Expr) tri {
 		return e.cond(n.Expr)
 	case *sqlparser.ComparisonExpr:
 		l, r := e.operand(n.Left), e.operand(n.Right)
+		if n.Operator == sqlparser.NullSafeEqualStr && (l.null || r.null) {
+			if l.null && r.null {
+				return yes
+			}
+			return no
+		}
 		if l.null || r.null {
 			return unknown
 		}
@@ -405,7 +423,7 @@ func (e *myEnv) cond(x sqlparser.Expr) tri {
 			}
 		}
 		switch n.Operator {
-		case sqlparser.EqualStr:
+		case sqlparser.EqualStr, sqlparser.NullSafeEqualStr:
 			if eq {
 				return yes
 			}
@@ -479,10 +497,24 @@ func runMySQLSelect(c Case, sel *sqlparser.Select, params [][]byte, trows, urows
 	env := &myEnv{c: c, talias: "t", ualias: "u", params: params}
 	var on sqlparser.Expr
 	withU := false
+	var derivedRows *[][]pgsess.Value
 	var scan func(te sqlparser.TableExpr) error
 	scan = func(te sqlparser.TableExpr) error {
 		switch n := te.(type) {
 		case *sqlparser.AliasedTableExpr:
+			if sub, ok := n.Expr.(*sqlparser.Subquery); ok {
+				// a derived table over t: (SELECT <columns of t> FROM t [AS q] [WHERE ..]) AS alias
+				inner, ok := sub.Select.(*sqlparser.Select)
+				if !ok || n.As.IsEmpty() || derivedRows != nil {
+					return fmt.Errorf("derived table %s", sqlparser.String(n))
+				}
+				rows, cols, err := runMySQLDerived(c, inner, params, trows)
+				if err != nil {
+					return err
+				}
+				derivedRows, env.tvisible, env.talias = &rows, cols, strings.ToLower(n.As.String())
+				return nil
+			}
 			tn, ok := n.Expr.(sqlparser.TableName)
 			if !ok {
 				return fmt.Errorf("table expression %T", n.Expr)
@@ -522,6 +554,9 @@ func runMySQLSelect(c Case, sel *sqlparser.Select, params [][]byte, trows, urows
 			out = append(out, myMatch{t: tr, u: ur})
 		}
 	}
+	if derivedRows != nil {
+		trows = *derivedRows
+	}
 	for _, tr := range trows {
 		if !withU {
 			emit(tr, nil)
@@ -532,6 +567,39 @@ func runMySQLSelect(c Case, sel *sqlparser.Select, params [][]byte, trows, urows
 		}
 	}
 	return out, env.err
+}
+
+// runMySQLDerived evaluates the SELECT of a derived table over t: which rows of t it holds and which columns it lists
+// (columns keep their names: an unrenamed column list of table t, qualified or not).
+func runMySQLDerived(c Case, sel *sqlparser.Select, params [][]byte, trows [][]pgsess.Value) ([][]pgsess.Value, map[string]bool, error) {
+	cols := map[string]bool{}
+	for _, se := range sel.SelectExprs {
+		ae, ok := se.(*sqlparser.AliasedExpr)
+		if !ok || !ae.As.IsEmpty() {
+			return nil, nil, fmt.Errorf("derived table: select expression %s", sqlparser.String(se))
+		}
+		col, ok := ae.Expr.(*sqlparser.ColName)
+		if !ok {
+			return nil, nil, fmt.Errorf("derived table: select expression %s", sqlparser.String(se))
+		}
+		name := strings.ToLower(col.Name.String())
+		if _, ok := tCols[name]; !ok {
+			return nil, nil, fmt.Errorf("derived table: unknown column %s", sqlparser.String(col))
+		}
+		cols[name] = true
+	}
+	ms, err := runMySQLSelect(c, sel, params, trows, nil)
+	if err != nil {
+		return nil, nil, err
+	}
+	rows := make([][]pgsess.Value, 0, len(ms))
+	for _, m := range ms {
+		if m.u != nil {
+			return nil, nil, fmt.Errorf("derived table over a join")
+		}
+		rows = append(rows, m.t)
+	}
+	return rows, cols, nil
 }
 
 // CheckRewriteMySQL drives the MySQL HashQuery observer and evaluates what it emits literally.
@@ -668,7 +736,7 @@ func CheckRewriteMySQL(c Case) (vs hx.Vs) {
 }
 
 func TestRewriteMySQL(t *testing.T) {
-	R.Rule("TestRewriteMySQL", "as TestRewritePG with the MySQL dialect: literals as '..', \"..\", X'..', 0x.., decimal; placeholders ?; HashQuery.OnQuery on the statement object, OnBind on the same (mutated) syntax tree as the proxy does; the emitted text is re-parsed with acra's sqlparser and evaluated by a small literal evaluator (AND/OR/NOT in three-valued logic, substr/convert, hex literals, join on a plain column) over the values the write side stored. Same oracle and non-trivial rule")
+	R.Rule("TestRewriteMySQL", "as TestRewritePG with the MySQL dialect (incl. derived tables over t; the null-safe operator is <=>, un-negated, col <=> value / value <=> col / col <=> NULL): literals as '..', \"..\", X'..', 0x.., decimal; placeholders ?; HashQuery.OnQuery on the statement object, OnBind on the same (mutated) syntax tree as the proxy does; the emitted text is re-parsed with acra's sqlparser and evaluated by a small literal evaluator (AND/OR/NOT in three-valued logic, =, <>, <=>, substr/convert, hex literals, join on a plain column, a derived table over t with its own WHERE) over the values the write side stored. Same oracle and non-trivial rule")
 	hx.Checks(500, 6000)
 	rapid.Check(t, func(rt *rapid.T) {
 		c := genCase(rt, genOpts{mysql: true})
